@@ -43,10 +43,10 @@ ASSUMPTIONS = [
 ]
 OPTS = dict(p_colnames=0.0, p_composite_col=0.3)
 
-# Known finding D1 (Databricks.Subscript arity): the generator keeps (predicate,
-# databricks) pairs whose definition accesses a record field away from the compiler
-# when this flag is set; the exclusions are counted in evidence.
-EXCLUDE_D1 = not os.environ.get('VERIF_C09_NO_EXCLUDE')    # env var: re-derive D1
+# Finding D1 (Databricks.Subscript arity) was repaired in /repo (fix: commit f254f71);
+# nothing is excluded any more.  VERIF_C09_EXCLUDE_D1=1 restores the old exclusion
+# (keeps (predicate, databricks) pairs with a record field access away from the compiler).
+EXCLUDE_D1 = bool(os.environ.get('VERIF_C09_EXCLUDE_D1'))
 D1_BUCKET = ('internal:TypeError@compiler/expr_translate.py:Subscript:'
              'Databricks.Subscript() takes n positional arguments but n were given')
 
